@@ -304,6 +304,49 @@ func runTamper(tier string, seed int64, summaryPath, outPath string) {
 				})
 			}
 			add("keylen31.receiver_address", true, func(v *accountant.Vertex) { v.Transaction.ReceiverAddress = mkAddr(rw.Public[:31]) })
+			// 9. byte-level corruption of the DECODED address (version byte, key bytes, checksum bytes, leading zero) re-encoded
+			//    without repairing the checksum: every such string must be refused as an address
+			rawMut := func(a string, f func(raw []byte) []byte) string {
+				raw, err := base58.Decode(a)
+				if err != nil {
+					return a + "x"
+				}
+				return base58.Encode(f(append([]byte{}, raw...)))
+			}
+			type addrField struct {
+				name string
+				get  func(v *accountant.Vertex) *string
+			}
+			fields := []addrField{
+				{"signer_address", func(v *accountant.Vertex) *string { return &v.SignerPublicAddress }},
+				{"issuer_address", func(v *accountant.Vertex) *string { return &v.Transaction.IssuerAddress }},
+			}
+			if counter {
+				fields = append(fields, addrField{"receiver_address", func(v *accountant.Vertex) *string { return &v.Transaction.ReceiverAddress }})
+			}
+			for _, fld := range fields {
+				fld := fld
+				for _, vb := range []byte{0x01, 0x80, 0xff} {
+					vb := vb
+					add(fmt.Sprintf("rawaddr.version_%02x.%s", vb, fld.name), true, func(v *accountant.Vertex) {
+						p := fld.get(v)
+						*p = rawMut(*p, func(raw []byte) []byte { raw[0] = vb; return raw })
+					})
+				}
+				add("rawaddr.key_bit."+fld.name, true, func(v *accountant.Vertex) {
+					p := fld.get(v)
+					*p = rawMut(*p, func(raw []byte) []byte { raw[1+rng.Intn(32)] ^= 1 << uint(rng.Intn(8)); return raw })
+				})
+				add("rawaddr.checksum_bit."+fld.name, true, func(v *accountant.Vertex) {
+					p := fld.get(v)
+					*p = rawMut(*p, func(raw []byte) []byte { raw[len(raw)-1-rng.Intn(4)] ^= 1 << uint(rng.Intn(8)); return raw })
+				})
+				add("rawaddr.extra_leading_zero."+fld.name, true, func(v *accountant.Vertex) { p := fld.get(v); *p = "1" + *p })
+				add("rawaddr.extra_trailing_byte."+fld.name, true, func(v *accountant.Vertex) {
+					p := fld.get(v)
+					*p = rawMut(*p, func(raw []byte) []byte { return append(raw, 0) })
+				})
+			}
 			for _, m := range ms {
 				v := m.v
 				// ground truth
